@@ -298,13 +298,13 @@ def corr_truncate(ctx, rep, mdl, gr):
 def corr_pad(ctx, rep, mdl, gr):
     rng = ctx.rng
     configs = []
-    for _ in range(ctx.n(10, 60)):
+    for _ in range(ctx.n(16, 60)):
         a = ["--side-by-side", "--width=%d" % rng.choice([20, 24, 31, 40, 61]),
              "--line-fill-method=" + rng.choice(["ansi", "spaces"])]
-        if rng.random() < 0.5:
-            a.append("--minus-style=" + rng.choice(["red", "normal 52", "bold #aabbcc #102030", "reverse red", "normal"]))
-        if rng.random() < 0.5:
-            a.append("--plus-style=" + rng.choice(["green", "syntax 22", "ul 28", "normal"]))
+        if rng.random() < 0.7:
+            a.append("--minus-style=" + rng.choice(["red", "normal 52", "bold #aabbcc #102030", "reverse red", "normal", "normal 88", "white 124"]))
+        if rng.random() < 0.7:
+            a.append("--plus-style=" + rng.choice(["green", "syntax 22", "ul 28", "normal", "normal 28", "reverse green"]))
         if rng.random() < 0.3:
             a.append("--zero-style=" + rng.choice(["normal 236", "dim", "syntax"]))
         if rng.random() < 0.3:
@@ -585,7 +585,7 @@ def check_stdout(rep, replay, out):
 def binary_oracle(ctx, rep):
     rng = ctx.rng
     jobs = []
-    for k in range(ctx.n(420, 30000)):
+    for k in range(ctx.n(640, 30000)):
         r = rng.random()
         if r < 0.8:
             kind, inp = "diff", gen_diff(rng, colored=rng.random() < 0.25)
